@@ -91,7 +91,12 @@ func (f *UnionFile) Write(s []byte) (n int, err error) {
 		n, err = f.Layer.Write(s)
 		if err == nil &&
 			f.Base != nil { // hmm, do we have fixed size files where a write may hit the EOF mark?
-			_, err = f.Base.Write(s)
+			var nb int
+			nb, err = f.Base.Write(s)
+			if err == nil && nb < n {
+				// the base took fewer bytes than the layer and said nothing: not a complete write
+				n, err = nb, io.ErrShortWrite
+			}
 		}
 		return n, err
 	}
@@ -105,7 +110,12 @@ func (f *UnionFile) WriteAt(s []byte, o int64) (n int, err error) {
 	if f.Layer != nil {
 		n, err = f.Layer.WriteAt(s, o)
 		if err == nil && f.Base != nil {
-			_, err = f.Base.WriteAt(s, o)
+			var nb int
+			nb, err = f.Base.WriteAt(s, o)
+			if err == nil && nb < n {
+				// the base took fewer bytes than the layer and said nothing: not a complete write
+				n, err = nb, io.ErrShortWrite
+			}
 		}
 		return n, err
 	}
@@ -257,7 +267,12 @@ func (f *UnionFile) WriteString(s string) (n int, err error) {
 	if f.Layer != nil {
 		n, err = f.Layer.WriteString(s)
 		if err == nil && f.Base != nil {
-			_, err = f.Base.WriteString(s)
+			var nb int
+			nb, err = f.Base.WriteString(s)
+			if err == nil && nb < n {
+				// the base took fewer bytes than the layer and said nothing: not a complete write
+				n, err = nb, io.ErrShortWrite
+			}
 		}
 		return n, err
 	}
